@@ -875,9 +875,50 @@ fn sk_select(r: &mut Rng, depth: u32) -> String {
     s
 }
 
+/// hand-written boundary inputs: one per branch / error exit of the modelled parser functions
+const SK_EDGE: &[&str] = &[
+    "SELECT CASE c1 END", "SELECT CASE END", "SELECT CASE c1 ELSE 1 END", "SELECT CASE ELSE 1 END", "SELECT CASE WHEN 1 THEN 2",
+    "SELECT CASE WHEN 1 THEN 2 WHEN 3 END", "SELECT CASE WHEN 1, THEN 2 END", "SELECT CASE WHEN 1 THEN 2 ELSE END",
+    "SELECT CASE WHEN 1 THEN 2 ELSE 3", "SELECT CASE c1 WHEN 1 THEN 2 END c2", "SELECT CASE WHEN 1 2 END", "SELECT CASE CASE WHEN 1 THEN 2 END WHEN 2 THEN 3 END",
+    "SELECT c1 IN ()", "SELECT c1 IN (SELECT 1", "SELECT c1 IN 1", "SELECT c1 IN (1,)", "SELECT c1 IN (,1)", "SELECT c1 NOT IN ()", "SELECT c1 IN (SELECT 1) c2",
+    "SELECT c1 BETWEEN 1 2", "SELECT c1 BETWEEN 1 AND", "SELECT c1 NOT BETWEEN 1 AND 2", "SELECT 1 BETWEEN 2 AND 3 AND 4", "SELECT 1 BETWEEN 2 AND 3 BETWEEN 4 AND 5",
+    "SELECT 1 BETWEEN 2 OR 3 AND 4", "SELECT c1 IS NULL", "SELECT c1 IS NOT", "SELECT c1 IS NOT NULL", "SELECT c1 IS 1", "SELECT 1 IS NULL IS NULL", "SELECT NULL IS NULL",
+    "SELECT 1 = 2 IS NULL", "SELECT 1 IN (1) IS NULL", "SELECT 1 IN (1) IN (2)", "SELECT 1 LIKE 2 LIKE 3", "SELECT 1 LIKE", "SELECT 1 NOT LIKE 2",
+    "SELECT f1(", "SELECT f1(*", "SELECT f1(*)", "SELECT f1(1,)", "SELECT f1()", "SELECT f1() g1()", "SELECT f1(*, 1)", "SELECT f1(1 2)", "SELECT f1 (1)", "SELECT f1(f1(), g1(*))",
+    "SELECT (", "SELECT ()", "SELECT (1", "SELECT (1))", "SELECT (SELECT 1", "SELECT (SELECT 1)", "SELECT (SELECT)", "SELECT ((SELECT 1))", "SELECT (1, 2)",
+    "SELECT EXISTS 1", "SELECT EXISTS (1)", "SELECT EXISTS (SELECT 1)", "SELECT NOT EXISTS (SELECT 1)", "SELECT NOT NOT EXISTS (SELECT 1)", "SELECT EXISTS (SELECT 1",
+    "SELECT - NOT EXISTS (SELECT 1)", "SELECT NOT EXISTS 1", "SELECT 1 FROM", "SELECT 1 FROM (t1", "SELECT 1 FROM (SELECT 1)", "SELECT 1 FROM (SELECT 1) t1 t2",
+    "SELECT 1 FROM t1 t2 t3", "SELECT 1 FROM t1,", "SELECT 1 FROM ,t1", "SELECT 1 FROM (t1) t2", "SELECT 1 FROM ((SELECT 1) t1)", "SELECT 1 FROM ()",
+    "SELECT 1 FROM t1, (SELECT 2) t2 WHERE EXISTS (SELECT 3)", "SELECT 1 FROM (t1, (t1))", "SELECT 1 FROM 1", "SELECT 1 FROM (SELECT 1) 1", "SELECT 1 FROM t1 WHERE",
+    "SELECT 1 WHERE", "SELECT 1 WHERE 1 WHERE 2", "SELECT 1 WHERE 1 FROM t1", "SELECT * c1", "SELECT *, 1", "SELECT 1, *", "SELECT * *", "SELECT 1 *", "SELECT 1,", "SELECT , 1",
+    "SELECT 1 1", "SELECT 1 c1 c2 , 2", "SELECT 1 c1, 2 c2", "SELECT 1;", "SELECT 1; 2", "SELECT 1 ;;", "SELECT - ", "SELECT - - - 1", "SELECT + - + 1", "SELECT NOT", "SELECT NOT NOT 1",
+    "SELECT 1 NOT", "SELECT 1 NOT 2", "SELECT 1 NOT IN", "SELECT 1 NOT LIKE", "SELECT 1 NOT BETWEEN 1 AND", "SELECT NOT IN (1)", "SELECT NOT LIKE 1", "SELECT NOT BETWEEN 1 AND 2",
+    "SELECT 1 = ", "SELECT 1 = = 2", "SELECT 1 = 2 = 3", "SELECT 1 < 2 >= 3", "SELECT 1 + * 2", "SELECT 1 * - 2", "SELECT 1 * NOT 2", "SELECT 1 + NOT 2", "SELECT 1 || || 2",
+    "SELECT 1 AND", "SELECT AND 1", "SELECT 1 OR OR 2", "SELECT 1 AND NOT 2 OR NOT 3", "SELECT TRUE AND FALSE OR NULL", "SELECT 's' || 's' = 's'", "SELECT 1 + 2 * 3 - 4 / 5",
+    "FROM t1", "1", ";", "SELECT", "SELECT SELECT 1", "SELECT 1 SELECT 2", "SELECT (SELECT 1) c1 FROM (t1, (t1))", "SELECT 1 ) ) c1", "SELECT END", "SELECT THEN", "SELECT WHEN 1",
+    "SELECT ELSE", "SELECT IN", "SELECT IS", "SELECT NULL", "SELECT , ", "SELECT 1 THEN 2", "SELECT 1 END", "SELECT (1 END)", "SELECT 1 WHEN 2",
+];
+
 pub fn skeleton_soups(seed: u64, thorough: bool) -> Vec<String> {
     let scale = if thorough { 4 } else { 1 };
-    let mut out = Vec::new();
+    let mut out: Vec<String> = SK_EDGE.iter().map(|s| s.to_string()).collect();
+    // every single-lexeme deletion and every truncation of a few hundred short accepted statements
+    {
+        let mut r = Rng::new(seed, "c23/skel/deletions");
+        for _ in 0..160 * scale {
+            let s = sk_select(&mut r, 1);
+            let v = lexemes(&s);
+            if v.len() > 16 {
+                continue;
+            }
+            for k in 0..v.len() {
+                let mut w = v.clone();
+                w.remove(k);
+                out.push(w.join(" "));
+                out.push(v[..k].join(" "));
+            }
+        }
+    }
     let mut r = Rng::new(seed, "c23/skel/grammar");
     for i in 0..2500 * scale {
         let depth = 1 + (i % 3) as u32;
